@@ -506,3 +506,40 @@ REGISTRY["C20"] = {
                             "c20.samples_with_ingest_stalled": 20, "store.flushes": 1000, "store.compactions": 1000,
                             "pass2.second_thread_started_while_first_is_held_after_apply": 3},
 }
+
+
+# ------------------------------------------------------------------------------------------- C09
+REGISTRY["C09"] = {
+    "level": "fault_enumeration",
+    "technique": "differential runtime monitor under fault injection: every access path (Sst::new + forward/backward walk + loads; LogIterator drain; ManifestIterator and Manifest::open; KeyValueStore::open + all point reads + full scan + LsmVerifier on a real store directory) is run on the pristine file and on copies with injected bit flips, byte overwrites, zeroed runs, truncations, appended suffixes and pairs of these; results must be an error or identical; panics are caught, aborts and allocation-cap exits are reported by the driver, peak allocation is compared with the pristine run",
+    "level_text": ("Fault enumeration over generated files: every single-bit flip of the index, filter and final blocks of "
+                   "small SSTs, of every log frame header and of every manifest separator line; every truncation length of "
+                   "files up to 2.5 KB (windows around region edges plus samples above); stratified samples elsewhere; "
+                   "sampled pairs of damages; store-level damage sampled over every file of real store directories."),
+    "level_note": ("Trusted: the pristine run as the reference; the harness' own parse of the SST final block (regions); the "
+                   "counting allocator. A loss that a reader cannot tell from a torn tail (pure truncation, or damage "
+                   "confined to the last log frame / last manifest transaction that makes exactly that one disappear) is "
+                   "counted, not reported; suffixes that are themselves well-formed records are not generated."),
+    "rule": ("sst case = generated table (2-240 keys, 1-40 versions, tombstones, 4 KiB blocks, random restart intervals) "
+             "written by SstBuilder; log case = 2-15 batches of 1-4 entries written by LogBuilder; manifest case = 2-11 "
+             "edits applied through Manifest; store case = directory produced by a scripted single-stepped store history "
+             "(flushes, compactions, reopens, unflushed tail). Per damaged copy: whatever is returned before an error "
+             "must be a prefix of the pristine answer and a clean end must be complete; loads that succeed must agree; "
+             "Manifest::open / KeyValueStore::open that succeed must give the pristine state. Non-trivial = file with "
+             ">=2 entries / every log / every manifest / store with SSTs and a log; distinct = hash of the pristine bytes."),
+    "assumptions": ["loss confined to the tail that is indistinguishable from a torn write is not damage the reader can detect",
+                    "an appended suffix that is a well-formed record is data, not damage"],
+    "exhaustive": lambda tier, counters: False,
+    "jobs": lambda tier: [
+        job("files", "c09", shards=16, timeout=3000, sst_cases=q(tier, 24, 1500), log_cases=q(tier, 24, 1500),
+            mani_cases=q(tier, 24, 1500), store_cases=q(tier, 4, 200), budget=q(tier, 600, 3000),
+            store_budget=q(tier, 300, 1500)),
+    ] + ([job("files-release", "c09", flavour="release", shards=16, timeout=3000, sst_cases=1500, log_cases=1500,
+              mani_cases=1500, store_cases=200, budget=3000, store_budget=1500)] if tier == "thorough" else []),
+    "floors": lambda tier: {"distinct_nontrivial": 500, "sst.damages.final-block": 50000, "sst.damages.index-block": 50000,
+                            "sst.damages.filter-block": 50000, "sst.damages.data-blocks": 50000,
+                            "log.damages.kind.flip": 50000, "mani.damages.kind.flip": 50000,
+                            "sst.damages.kind.truncate": 20000, "log.damages.kind.truncate": 50000,
+                            "store.damages.sst": 3000, "store.damages.log": 300, "store.damages.manifest": 300,
+                            "store.verifier_runs": 1000},
+}
